@@ -428,6 +428,32 @@ def hex_order_files(rng, n_variants=24):
     w.F = [[0, 2, 4, 6], [8, 10, 12, 14], [3, 16, 9, 18], [13, 20, 7, 22], [19, 15, 23, 5], [1, 21, 11, 17]]
     w.C = [[5, 0, 3, 7, 9, 11]]; w.topo = "hex"
     out.append(("witness_invalid_slot", serialize(file_ast(w)), True))
+    # six quads that pass the closedness test and both ordering walks of the hexahedral add_cell without being a hexahedron: must be
+    # rejected with the topology check on (fixes "checked hex add_cell must reject cells without eight distinct vertices" and
+    # "hex halfface ordering check must require vertex-disjoint top and bottom faces")
+    def noncube(label, nv, loops):
+        x = Desc(label, "hex"); bb = Builder(x); bb.v(nv); bb.cell(loops); x.topo = "hex"
+        out.append((label, serialize(file_ast(x)), True))
+    # a cube pinched in a vertex (7 distinct vertices)
+    pv = [0, 1, 2, 3, 4, 5, 0, 7]
+    noncube("noncube_pinched", 8, [(pv[3], pv[2], pv[1], pv[0]), (pv[7], pv[6], pv[5], pv[4]), (pv[1], pv[2], pv[6], pv[7]),
+                                   (pv[4], pv[5], pv[3], pv[0]), (pv[1], pv[7], pv[4], pv[0]), (pv[2], pv[3], pv[5], pv[6])])
+    # two closed components on ten vertices
+    noncube("noncube_two_components", 10, [(0, 1, 2, 3), (2, 1, 0, 4), (3, 2, 4, 5), (6, 7, 8, 9), (0, 3, 5, 4), (9, 8, 7, 6)])
+    # eight vertices, top and bottom sharing two of them
+    noncube("noncube_shared_top_bottom", 8, [(0, 1, 2, 3), (0, 4, 2, 5), (1, 0, 5, 6), (3, 2, 4, 7), (5, 2, 1, 6), (4, 0, 3, 7)])
+    return out
+
+def tet_cell_files(rng):
+    """(label, bytes, must_reject) of files of tetrahedral topology type, to be read by the tetrahedral class with the topology
+    check on: (a) two two-triangle pillows (four triangles whose halfedges are matched pairwise, six vertices: must be rejected
+    since the fix "checked tet add_cell must reject four triangles that are not a tetrahedron"), (b) a proper tetrahedron"""
+    out = []
+    x = Desc("tet_two_pillows", "tet"); b = Builder(x); b.v(6)
+    f0 = b.hf((0, 1, 2)); f1 = b.hf((3, 4, 5)); x.C.append([f0, f0 ^ 1, f1, f1 ^ 1]); x.topo = "tet"
+    out.append(("tet_two_pillows", serialize(file_ast(x)), True))
+    y = Desc("tet_proper", "tet"); b = Builder(y); v = b.v(4); b.tet(*v); y.topo = "tet"
+    out.append(("tet_proper", serialize(file_ast(y)), None))
     return out
 
 # --------------------------------------------------------------------------------------------- mutation
